@@ -393,6 +393,13 @@ def default_name(ctx) -> None:
 
     for v in variants:
         unfold(v)
+    # dict.get(key, default) covers missing keys only: a well that is listed with the value None (the documented way of
+    # saying "no name") would get the component name None instead of the default
+    for kind, t in list(flat):
+        if kind == "plain" and isinstance(t, ast.Call) and call_fname(t) == "get" and len(t.args) == 2 and not (isinstance(t.args[1], ast.Constant) and t.args[1].value is None):
+            ctx.rep.refuted(rule, f"{f.qualname}/none-entry", f"the component name is `{show(t)[:70]}`: the default only replaces a missing key, an explicit None entry for a filled well "
+                            "is used as the component name (all such wells share the component `None`)", where=w)
+            unfold(t.args[1])
     multi_ok = None
     for kind, t in flat:
         if kind != "if":
